@@ -60,6 +60,25 @@ def run(rep, pdb, tier):
             r = for_range(ctx, e.loops[0]) if len(e.loops) == 1 else None
             ok = r is not None and e.kind == "upd" and e.op == "*=" and e.target == VAL and e.index == r[0] and e.value == P(1) and r[1:5] == (num(0), NNZ, False, False)
         rep.add("scale", rule, ok, fn["body"], "", where=loc(fn["body"]))
+    # ---- the inner product used by <y, A x> = <A^T y, x>  (src/vector/functions.rs is an anchor of this property)
+    from .common import LEN, NE as _NE
+    from .terms import lin_add as _la
+    fn = pdb.fn("vector::Vector<T>::dot")
+    rule = "dot: size guard, accumulator from zero() (so the empty inner product is 0), += self[i]*w[i] for i over the full range 0..size"
+    if fn is None:
+        rep.missing("dot", rule, "not found")
+    else:
+        ctx = Ctx.for_fn(pdb, fn)
+        V0, V1 = F(P(0), "vec"), F(P(1), "vec")
+        es = [e for e in effects(pdb, ctx) if e.kind == "assignop"]
+        ok = len(es) == 1 and _NE(LEN(V0), LEN(V1)) in effective_guards(pdb, fn)
+        if ok:
+            e = es[0]
+            r = for_range(ctx, e.loops[0]) if len(e.loops) == 1 else None
+            acc = ctx.binds.get(e.target[1]) if e.target[0] == "var" else None
+            ok = r is not None and acc is not None and acc.init is not None and e.op == "+=" and r[1:5] == (num(0), LEN(V0), False, False) and is_zero_term(ctx.term(acc.init)) and \
+                e.value in (("op", "*", ("idx", V0, r[0]), ("idx", V1, r[0])), ("op", "*", ("idx", V1, r[0]), ("idx", V0, r[0]))) and ctx.term(fn["body"]["expr"]) == e.target
+        rep.add("dot", rule, ok, fn["body"], "", where=loc(fn["body"]))
     rep.floor("csc-walk/", 6)
     rep.assumptions += ["numerical equality with the dense product and the adjoint identity follow from the two products being the definitional ones; they are not decided as value statements"]
     return {}
